@@ -223,7 +223,7 @@ func withoutRoute(t TableSpec, root, method, full string) TableSpec {
 
 func removeRouteOn(c *restful.Container, root, method, full string) {
 	for _, ws := range c.RegisteredWebServices() {
-		if ws.RootPath() == root {
+		if ws.RootPath() == root || (root == "" && ws.RootPath() == "/") {
 			ws.RemoveRoute(full, method)
 		}
 	}
